@@ -275,6 +275,46 @@ def r22_canonical_local(text, pattern, canonical):
     return "".join(out), 1
 
 
+def r10_map_or(text):
+    """R10m (always applied): `E.map_or(D, |p| B)` -> `(match E { Some(p) => B, None => D })` — Verus has no specification for
+    Option::map_or; the match is its definition. Only closures with one simple parameter and no nested closure; E: postfix chain."""
+    k = 0
+    pos = 0
+    while True:
+        m = mask(text)
+        mm = re.compile(r"\.\s*map_or\(").search(m, pos)
+        if not mm:
+            break
+        op = mm.end() - 1
+        cp = match_close(m, op)
+        inner = text[op + 1:cp]
+        mi = mask(inner)
+        # split default / closure on the first top-level comma
+        depth, cut = 0, -1
+        for i, ch in enumerate(mi):
+            if ch in "([{":
+                depth += 1
+            elif ch in ")]}":
+                depth -= 1
+            elif ch == "," and depth == 0:
+                cut = i
+                break
+        cm = re.match(r"\s*\|\s*(&?\s*\w+)\s*\|\s*(.*)$", inner[cut + 1:], re.S) if cut >= 0 else None
+        if not cm or "|" in mask(cm.group(2)).replace("||", ""):
+            pos = mm.end()
+            continue
+        dflt = inner[:cut].strip()
+        param = cm.group(1).replace("&", "").strip()
+        body = cm.group(2).strip().rstrip(",").strip()
+        s0 = _receiver_start(m, mm.start())
+        recv = text[s0:mm.start()]
+        rep = "(match %s { Some(%s) => %s, None => %s })" % (recv, param, body, dflt)
+        text = text[:s0] + rep + text[cp + 1:]
+        pos = s0 + len(rep)
+        k += 1
+    return text, k
+
+
 def r3_await(text, arg="Tracked(tr)"):
     return sub(text, r"\.\s*await\b", ".vx_await(%s)" % arg, count=-1, name="R3")
 
@@ -560,6 +600,14 @@ def inject(text, anchor, where, code, count=1):
     if where == "start":
         k = m.index("{")
         return text[:k + 1] + "\n" + code + "\n" + text[k + 1:], 1
+    if where == "result":
+        # ghost bookkeeping as a function of the RESULT, whatever the shape of the body: `{ let vx_result = BODY; CODE vx_result }`.
+        # Only for bodies without `return` (an early return would bypass the bookkeeping) -> otherwise undecided.
+        if re.search(r"\breturn\b", m):
+            raise Undecided("inject(result): the body contains `return`")
+        ob = m.index("{")
+        cb = match_close(m, ob)
+        return text[:ob] + "{ let vx_result = " + text[ob:cb + 1] + ";\n" + code + "\n vx_result }" + text[cb + 1:], 1
     ms = list(re.finditer(anchor, m, re.S))
     if count == "optional":
         if len(ms) > 1:
@@ -783,6 +831,9 @@ def apply_rules(text, rules, log, fn):
     text, k21 = r21_ready_macro(text)      # always: a macro Verus does not know, replaced by its documented expansion
     if k21:
         log["R21-ready"] = log.get("R21-ready", 0) + k21
+    text, k10m = r10_map_or(text)
+    if k10m:
+        log["R10m-map_or"] = log.get("R10m-map_or", 0) + k10m
     for r in rules:
         kind = r[0]
         if kind == "R1":
